@@ -3,6 +3,7 @@ package mv
 import (
 	"fmt"
 	"os"
+	"time"
 	"sort"
 	"strings"
 
@@ -54,6 +55,8 @@ type Hist struct {
 	zeroSeen bool
 	lastZero int
 	retainedVals []retainedVal
+	childOnly    map[int]bool
+	hadChildren  bool
 	gaugeCopies  int
 }
 
@@ -143,6 +146,9 @@ func (h *Hist) classify() {
 	if h.pState == pHeld {
 		h.Label("read-while-persister-held")
 	}
+	if h.O.ChildLabels {
+		h.classifyChildren()
+	}
 	// per key: newest op in a different section from an older op
 	byKey := map[string][]struct {
 		id int
@@ -220,8 +226,14 @@ func RunHistory(t TB, p *Program, o Oracles) *Hist {
 	}
 	e := NewEnv(t, p)
 	e.PersistErrFatal = o.PersistErrFatal
-	h := &Hist{Env: e, O: o, snaps: map[int]*snapHandle{}, iters: map[int]*iterHandle{}, touched: map[string][]int{}}
+	h := &Hist{Env: e, O: o, snaps: map[int]*snapHandle{}, iters: map[int]*iterHandle{}, touched: map[string][]int{}, childOnly: map[int]bool{}}
 	defer h.finish()
+	e.OnRound = func() {
+		for _, sh := range h.snaps {
+			sh.round = true
+		}
+		h.noteCompactions()
+	}
 	e.Open()
 	h.noteCompactions()
 	for i, op := range p.Ops {
@@ -278,6 +290,24 @@ func (h *Hist) step(i int, op Op) {
 		}
 		h.Exec(op.B)
 		id := len(h.States) - 1
+		if op.B.HasChildren() {
+			h.hadChildren = true
+		}
+		if batchChildOnly(op.B) {
+			h.Label("child-only-batch")
+			h.childOnly[id] = true
+		}
+		if len(op.B.Ops) > 0 {
+			allDel := true
+			for _, kv := range op.B.Ops {
+				if kv.Op != OpDel {
+					allDel = false
+				}
+			}
+			if allDel {
+				h.Label("delete-only-batch")
+			}
+		}
 		h.noteTouched(op.B, "", id)
 		for _, sh := range h.snaps {
 			sh.laterChange = true
@@ -374,6 +404,17 @@ func (h *Hist) afterRound(when string, roundsBefore, errsBefore int) {
 		for _, sh := range h.snaps {
 			sh.round = true
 		}
+		if len(h.lastBase) > 0 {
+			all := true
+			for _, id := range h.lastBase {
+				if !h.childOnly[id] {
+					all = false
+				}
+			}
+			if all {
+				h.Label("child-only-round")
+			}
+		}
 		h.noteCompactions()
 	}
 }
@@ -424,9 +465,16 @@ func (h *Hist) reopen(when string, op Op) {
 	dirty := h.Dirty()
 	h.closeHandles()
 	h.CloseAll()
-	waitDirSettled(h.Dir, 0)
-	if !waitDirSettled(h.Dir, 2e9) && !h.Cfg.KeepFiles {
-		h.Label("dir-not-settled-before-reopen")
+	if op.N != 1 {
+		wait := time.Duration(500 * time.Millisecond)
+		if h.hadChildren && excluded("child-handles") {
+			wait = 0 // known leak: old files are never unlinked, do not wait for it
+		}
+		if !waitDirSettled(h.Dir, wait) && !h.Cfg.KeepFiles {
+			h.Label("dir-not-settled-before-reopen")
+		}
+	} else {
+		h.Label("reopen:immediately")
 	}
 	cfg := h.Cfg
 	if op.Cfg != nil {
@@ -495,12 +543,91 @@ func (h *Hist) reopen(when string, op Op) {
 }
 
 func (h *Hist) final() {
+	if h.O.Gauges && h.Cfg.Backing != "mem" && !h.closed && h.controlled {
+		// converse: with no new input the gauges reach zero within a few
+		// controller cycles
+		if !h.Drain() {
+			h.Failf("final: persistence does not catch up: after 6 merger cycles and persister rounds without new input %d of %d batches are covered (round errors: %v)",
+				h.Persisted, len(h.States)-1, h.OnErrors())
+		}
+		st := h.stats()
+		if st.CurDirtyOps != 0 || st.CurDirtyBytes != 0 || st.CurDirtySegments != 0 {
+			h.Failf("final: the lower level has accepted every batch but the dirty gauges stay non-zero: ops=%d bytes=%d segments=%d",
+				st.CurDirtyOps, st.CurDirtyBytes, st.CurDirtySegments)
+		}
+		h.checkGauges("final", len(h.Prog.Ops))
+	}
 	if h.O.FinalReopen && h.Cfg.Backing == "store" && !h.closed {
 		h.reopen("final drain+reopen", Op{Kind: "reopen", Drain: true})
 		if h.O.StoreEveryStep {
 			h.CheckStore("after final reopen")
 		}
 	}
+	if h.O.ReadPaths {
+		h.closeHandles()
+		h.CloseAll()
+		h.checkRetained("after closing snapshot, collection and store")
+	}
+	if h.O.Handles && h.Cfg.Backing == "store" {
+		h.CloseAll()
+		for _, sh := range h.snaps {
+			sh.collClosed, sh.storeClosed = true, true
+		}
+		for id := range h.snaps {
+			h.readSnap("final re-read after collection and store close", id)
+		}
+		h.closeHandles()
+		if h.hadChildren && excluded("child-handles") {
+			h.Label("release-check-skipped:known-child-handle-leak")
+		} else {
+			h.CheckReleased("final")
+		}
+	}
 }
 
 func (h *Hist) persistNil(when string) {}
+
+// classifyChildren labels deletions / recreations of a child whose earlier
+// data sits in a different section (or is already persisted).
+func (h *Hist) classifyChildren() {
+	type ev struct {
+		id  int
+		del bool
+	}
+	byChild := map[string][]ev{}
+	for k, ids := range h.touched {
+		i := strings.Index(k, "\x00")
+		path := k[:i]
+		if path == "" {
+			continue
+		}
+		del := strings.HasSuffix(k, "\x00delchild")
+		for _, id := range ids {
+			byChild[path] = append(byChild[path], ev{id, del})
+			// a write to a/b is also an event of child a
+			for j := 1; j < len(path); j++ {
+				if path[j] == '/' {
+					byChild[path[:j]] = append(byChild[path[:j]], ev{id, false})
+				}
+			}
+		}
+	}
+	for _, l := range byChild {
+		sort.Slice(l, func(i, j int) bool { return l[i].id < l[j].id })
+		for i := 1; i < len(l); i++ {
+			if !(l[i].del || l[i-1].del) {
+				continue
+			}
+			a, b := h.section(l[i].id), h.section(l[i-1].id)
+			if a != b && a != "?" && b != "?" {
+				if l[i].del {
+					h.Label("child-del-cross-section")
+				} else {
+					h.Label("child-recreate-cross-section")
+					h.Label("child-del-cross-section")
+				}
+				h.Label("childshape:" + a + "-over-" + b)
+			}
+		}
+	}
+}
